@@ -82,7 +82,35 @@ def hostile_configs(rng, max_n=5):
     c["layer_altitudes"] = [8000.0] * c["n_layers"]
     c["class"] = "opposite_offaxis"
     out.append(c)
+    out.append(layer_above_gs(rng, max_n))
+    out.append(nearly_equal_sensors(rng, max_n))
     return out
+
+
+def layer_above_gs(rng, max_n=5, n_wfs=None):
+    """Low (Rayleigh) laser guide stars in different directions with a layer above them: the cone factor 1 - h/H is negative."""
+    c = make_config(rng, n_wfs=n_wfs or int(rng.choice([2, 3])), max_n=max_n, cls="asym")
+    c["gs_altitudes"] = [float(rng.choice([10000.0, 15000.0])) for _ in range(c["n_wfs"])]
+    if rng.random() < 0.5:
+        c["gs_altitudes"][-1] = 0.0
+    c["gs_positions"] = [[float(v) for v in rng.uniform(-30, 30, 2)] for _ in range(c["n_wfs"])]
+    c["layer_altitudes"] = [float(a) for a in ([20000.0, 0.0, 18000.0, 12000.0][:c["n_layers"]])]
+    c["class"] = "layer_above_gs"
+    return c
+
+
+def nearly_equal_sensors(rng, max_n=5, n_wfs=None):
+    """Sensors whose guide-star altitudes / sub-aperture sizes differ only in the 6th-7th digit (not equal, not clearly different)."""
+    c = make_config(rng, n_wfs=n_wfs or int(rng.choice([2, 3])), max_n=max_n, cls="same_geometry")
+    u = rng.random()
+    H = 90000.0
+    c["gs_altitudes"] = [H + 4.0 * w if u < 0.6 else H for w in range(c["n_wfs"])]
+    if u >= 0.4:
+        c["subap_diameters"] = [d * (1 + 3e-7 * w) for w, d in enumerate(c["subap_diameters"])]
+    c["gs_positions"] = [[float(v) for v in rng.uniform(-30, 30, 2)] for _ in range(c["n_wfs"])]
+    c["layer_altitudes"] = [float(a) for a in ([12000.0, 0.0, 4000.0, 9000.0][:c["n_layers"]])]
+    c["class"] = "nearly_equal_sensors"
+    return c
 
 
 def construct(aotools, cfg, threads=1, as_arrays=False):
